@@ -10,6 +10,8 @@ GEN_DIR = os.path.join(CACHE, 'gen')
 SEMANTIC = [
     ('postcondition not satisfied', 'postcondition'),
     ('precondition not satisfied', 'precondition'),
+    ('precondition not met: index in bounds', 'bounds'),
+    ('precondition not met', 'precondition'),
     ('invariant not satisfied', 'invariant'),
     ('decreases not satisfied', 'decreases'),
     ('possible arithmetic underflow/overflow', 'overflow'),
